@@ -313,7 +313,7 @@ func (c *Ctx) highWaterStore() (*ssa.Store, FieldRef, bool) {
 		if !ok || f.Type != a.Sv.Obj().Name() {
 			return
 		}
-		if len(a.Create.Params) >= 3 && origin(st.Val) == ssa.Value(a.Create.Params[2]) {
+		if len(a.Create.Params) >= 3 && origin(st.Val) == paramAt(a.Create, 2) {
 			res, fr = st, f
 		}
 	})
@@ -480,7 +480,7 @@ func ruleErrorSplit(c *Ctx, rule string) {
 					if !ok {
 						continue
 					}
-					if origin(x) == ssa.Value(a.Create.Params[2]) && isFieldLoad(y, hwField) && (op == token.LEQ || op == token.LSS || op == token.EQL) {
+					if origin(x) == paramAt(a.Create, 2) && isFieldLoad(y, hwField) && (op == token.LEQ || op == token.LSS || op == token.EQL) {
 						cause = "id not greater than the high-water mark"
 					}
 				}
@@ -657,6 +657,25 @@ func ruleLateFramesInert(c *Ctx, rule string) {
 				}
 			}
 		}
+		if !ok {
+			// the test may have been moved to the callers: every call is made only with a stream that was found
+			sites := w.callSitesOf(acc)
+			okSites := len(sites) > 0
+			for _, s := range sites {
+				recvV := s.Common().Args[0]
+				guarded := false
+				for _, f := range factsAt(s) {
+					x, op, y, isCmp := cmpFact(f)
+					if isCmp && op == token.NEQ && isNilConst(y) && origin(x) == origin(recvV) {
+						guarded = true
+					}
+				}
+				if !guarded {
+					okSites = false
+				}
+			}
+			ok = okSites
+		}
 		c.check(ok, rule, name+": nil stream discards the frame", w.Pos(acc.Pos()), "first statement: if st == nil { return }", "the accept method does not start with a nil-stream check that returns: a late frame for a finished RPC dereferences nil (crash) or has an effect")
 	}
 	r := c.receivers()
@@ -713,7 +732,11 @@ func ruleIDValidation(c *Ctx, rule string) {
 		c.fail(rule, "table insert and high-water store", w.Pos(a.Create.Pos()), "not found")
 		return
 	}
-	idp := a.Create.Params[2]
+	idp := paramAt(a.Create, 2)
+	if idp == nil {
+		c.fail(rule, "creation function: id parameter", "-", "the creation function does not take the stream id as its second argument: unrecognised shape")
+		return
+	}
 	c.check(origin(ins.Key) == ssa.Value(idp), rule, "insert keyed by the frame's id", w.At(ins), "streams[id] = stream", "the table insert is keyed by "+desc(ins.Key)+", not the frame's id")
 	absent, greater := false, false
 	var cmpOp token.Token
@@ -895,7 +918,7 @@ func (c *Ctx) idCheckSummary(call *ssa.Call, hwField FieldRef) *idHelper {
 	var hp *ssa.Parameter
 	args := call.Call.Args
 	for i, arg := range args {
-		if i < len(h.Params) && len(a.Create.Params) > 2 && origin(arg) == ssa.Value(a.Create.Params[2]) {
+		if i < len(h.Params) && len(a.Create.Params) > 2 && origin(arg) == paramAt(a.Create, 2) {
 			hp = h.Params[i]
 		}
 	}
